@@ -42,7 +42,8 @@ Fixpoint jassoc (v : val) (t : list (val * str)) : str :=
   match t with [] => [0; 0; 0] | (k, r) :: t' => if val_eqb v k then r else jassoc v t' end.
 Definition mkL (a b c : list (str * str)) (j : list (val * str)) : lib :=
   {| strip_tags_fn := tbl a; html_unescape_fn := tbl b; unquote_fn := tbl c;
-     json_fn := fun v => jassoc v j |}.
+     json_fn := fun v => jassoc v j;
+     fix_truncate_clamp := @TRUNC@; fix_rpartition_found := @RPART@ |}.
 Definition rv_eqb := res_eqb_nopos val_eqb.
 Definition rs_eqb := res_eqb_nopos str_eqb.
 Definition typed (L : lib) (e : left) (ch : list lfilter) : res val :=
@@ -359,6 +360,20 @@ class Recorder:
 
 
 _ENV = None
+
+
+def code_version() -> dict[str, bool]:
+    """Which of the two versions of truncate_chars / remove_last the
+    implementation under test has (C19's fix: patches change both)."""
+    from liquid2.builtin.filters.string import remove_last
+    from liquid2.utils.text import truncate_chars
+    return {"truncate_clamp": truncate_chars("hello", 2, "...") == "...",
+            "rpartition_found": remove_last("abc", "a") == "bc"}
+
+
+def defs() -> str:
+    v = code_version()
+    return DEFS.replace("@TRUNC@", C.cbool(v["truncate_clamp"])).replace("@RPART@", C.cbool(v["rpartition_found"]))
 
 
 def env():  # noqa: ANN201
@@ -901,7 +916,8 @@ def main(chk: C.Check, build: C.Build) -> None:
     pr = P.program_level(chk, C.rng("c04", "programs"), 500 if not thorough else 6000)
     date_cache_witness(chk)
 
-    C.correspond(chk, "c04", IMPORTS, DEFS, ex["items"], what="Markup.eval_chain/output", shard=150)
+    C.correspond(chk, "c04", IMPORTS, defs(), ex["items"], what="Markup.eval_chain/output", shard=150)
+    chk.coverage["code_version"] = code_version()
     C.proofs_verdict(chk, proofs_ok)
 
     st = ex["stats"]
